@@ -114,8 +114,8 @@ def _split_nested_namespace(ns1: str, ns2: str, name: str) -> bool:
     """
     Documented example: ``my:namespace:a`` -> (``my:namespace``, ``a``).
 
-    NOT registered in the C15 targets: it is REFUTED on the pinned tree (``rsplit(sep, -1)`` splits at every
-    separator, see the C15 report); kept here so that it can be run by hand.
+    (Refuted on the pinned tree, where ``rsplit(sep, -1)`` split at every separator; confirmed since the /repo commit
+    "fix: split_namespace splits at the last separator only".)
 
     pre: len(ns1) <= 3 and len(ns2) <= 3 and len(name) <= 3
     pre: SEP not in name
